@@ -5,6 +5,9 @@ tier=$1; shift
 ids="$*"; [ -z "$ids" ] && ids=$(ls /verif/seeded | sed 's/-.*//' | sort -u)
 for id in $ids; do for d in /verif/seeded/$id-*; do
   [ -f $d/patch.diff ] || continue
-  t0=$(date +%s); out=$(/verif/lib/trymut.sh $d/patch.diff bin/check $id $tier 2>&1); rc=$?; t1=$(date +%s)
+  # (a defect may be filed under one property and be visible to the check of another: meta.json "detected_by")
+  chk=$(python3 -c "import json;print(' '.join(json.load(open('$d/meta.json')).get('detected_by',['$id'])))" 2>/dev/null || echo $id)
+  rc=0; out=""; t0=$(date +%s)
+  for c in $chk; do o=$(/verif/lib/trymut.sh $d/patch.diff bin/check $c $tier 2>&1); r=$?; out="$out$o"; [ $r -ne 0 ] && rc=$r; done; t1=$(date +%s)
   echo "SEEDED $(basename $d) rc=$rc $((t1-t0))s $(echo "$out" | grep -o 'clauses flagged.*\|INCONCLUSIVE.*\|PATCH FAILED.*' | head -1 | cut -c1-160) $(echo "$out" | grep -o 'conformance [0-9/]*' | head -1)"
 done; done
